@@ -455,6 +455,166 @@ def inline_at(prog, body, block):
     return mir.Body(raw, prog)
 
 
+def split_chain_loops(raws, facts):
+    """`for x in a.chain(b) { body }` is rewritten (in the view) into `for x in a { body } for x in b { body }`: `Chain`
+    yields every item of `a`, then every item of `b`, and pulls from `b` only after `a` is exhausted. The loop's blocks are
+    copied; the first copy is driven by `a` and falls through into the second, which is driven by `b` and leaves through the
+    original exit. Only when the loop's single way out is the exhaustion arm of its `next()` (a `break` / `return` in the body
+    would have to skip the second loop). Returns the number of loops split."""
+    n = 0
+    for path, raw in list(raws.items()):
+        try:
+            body = mir.Body(raw, None)
+        except Exception:
+            continue
+        B = raw["blocks"]
+        for cb in range(len(B)):
+            t = B[cb]["term"]
+            if t["k"] != "call" or B[cb]["cleanup"] or len(t.get("args", [])) != 2 or t.get("t") is None:
+                continue
+            fr = op_fn(t["func"])
+            if fr is None or not fr["path"].endswith("iterator::Iterator::chain") or t["dest"]["p"]:
+                continue
+            c = t["dest"]["l"]
+            # the iterator the loop pulls from: `it = into_iter(move c)` (or c itself)
+            it = c
+            into_b = None
+            for b2 in range(len(B)):
+                t2 = B[b2]["term"]
+                if t2["k"] == "call" and t2["args"] and not t2["dest"]["p"]:
+                    f2 = op_fn(t2["func"])
+                    p2 = mir.op_place(t2["args"][0])
+                    if f2 is not None and f2["path"].endswith("IntoIterator::into_iter") and p2 is not None and not p2["p"] and p2["l"] == c:
+                        it, into_b = t2["dest"]["l"], b2
+            # the `next(&mut it)` call and its loop (the for-desugaring moves the iterator into a binding and reborrows it)
+            sdef = {}
+            for b2 in range(len(B)):
+                for st in B[b2]["stmts"]:
+                    if st["k"] == "assign" and not st["place"]["p"]:
+                        sdef.setdefault(st["place"]["l"], []).append(st.get("rv", {}))
+                t2 = B[b2]["term"]
+                if t2["k"] == "call" and not t2["dest"]["p"]:
+                    sdef.setdefault(t2["dest"]["l"], []).append({"call": True})
+
+            def root(l, depth=0):
+                ds = sdef.get(l, [])
+                if depth > 8 or len(ds) != 1:
+                    return l
+                rv = ds[0]
+                if "ref" in rv and all(e == "deref" for e in rv["ref"]["p"]):
+                    return root(rv["ref"]["l"], depth + 1)
+                if "use" in rv:
+                    p_ = mir.op_place(rv["use"])
+                    if p_ is not None and not p_["p"]:
+                        return root(p_["l"], depth + 1)
+                return l
+            nb = None
+            for b2 in range(len(B)):
+                t2 = B[b2]["term"]
+                if t2["k"] != "call" or not t2["args"]:
+                    continue
+                f2 = op_fn(t2["func"])
+                if f2 is None or not f2["path"].endswith("iterator::Iterator::next"):
+                    continue
+                p2 = mir.op_place(t2["args"][0])
+                if p2 is None or p2["p"]:
+                    continue
+                if root(p2["l"]) == it:
+                    nb = b2
+            if nb is None:
+                continue
+            loop = None
+            for (h, lbody, backs) in body.loops():
+                if nb in lbody and (loop is None or len(lbody) < len(loop[1])):
+                    loop = (h, set(lbody), backs)
+            if loop is None:
+                continue
+            h, LB, backs = loop
+            # exits: only from the switch on next()'s result, to one non-cleanup block
+            exits = [(x, s) for x in LB for s in body.succ[x] if s not in LB and not B[s]["cleanup"] and body.can_reach_return(s)]
+            srcs = {x for x, s in exits}
+            tgts = {s for x, s in exits}
+            nt = B[nb]["term"].get("t")
+            if len(tgts) != 1 or len(srcs) != 1 or nt is None or next(iter(srcs)) not in (nt, nb) or B[next(iter(srcs))]["term"]["k"] != "switch":
+                continue
+            X = next(iter(tgts))
+            L = raw["locals"]
+            pa, pb = mir.op_place(t["args"][0]), mir.op_place(t["args"][1])
+            if pa is None or pb is None:
+                continue
+            L.append({"ty": L[pa["l"]]["ty"] if not pa["p"] else "chain::First", "name": None})
+            itA = len(L) - 1
+            L.append({"ty": L[pb["l"]]["ty"] if not pb["p"] else "chain::Second", "name": None})
+            itB = len(L) - 1
+            line = t.get("line")
+            B[cb]["stmts"] = list(B[cb]["stmts"]) + [
+                {"k": "assign", "place": {"l": itA, "p": []}, "rv": {"use": copy.deepcopy(t["args"][0])}, "line": line, "exp": None, "inl": True},
+                {"k": "assign", "place": {"l": itB, "p": []}, "rv": {"use": copy.deepcopy(t["args"][1])}, "line": line, "exp": None, "inl": True}]
+            B[cb]["term"] = {"k": "goto", "t": t["t"], "line": line, "exp": None, "desugared": "chain"}
+            if into_b is not None:
+                B[into_b]["term"] = {"k": "goto", "t": B[into_b]["term"]["t"], "line": line, "exp": None, "desugared": "chain"}
+            # copy the loop
+            order = sorted(LB)
+            remap = {b_: len(B) + i for i, b_ in enumerate(order)}
+
+            def retarget(term, m):
+                tt = copy.deepcopy(term)
+                k = tt["k"]
+                if k == "goto":
+                    tt["t"] = m.get(tt["t"], tt["t"])
+                elif k == "switch":
+                    tt["targets"] = [[v, m.get(bb, bb)] for v, bb in tt["targets"]]
+                    tt["otherwise"] = m.get(tt["otherwise"], tt["otherwise"])
+                elif k in ("call", "drop", "assert"):
+                    if tt.get("t") is not None:
+                        tt["t"] = m.get(tt["t"], tt["t"])
+                return tt
+            # the second loop gets locals of its own for everything assigned inside the loop (the flow-insensitive provenance
+            # queries would otherwise see both drivers behind one reference temporary)
+            assigned = set()
+            for b_ in order:
+                for st in B[b_]["stmts"]:
+                    if st["k"] == "assign":
+                        assigned.add(st["place"]["l"])
+                tt_ = B[b_]["term"]
+                if tt_["k"] == "call":
+                    assigned.add(tt_["dest"]["l"])
+            assigned = {l_ for l_ in assigned if l_ > raw["arg_count"] and l_ != 0}
+            lmap = {}
+            for l_ in sorted(assigned):
+                L.append({"ty": L[l_]["ty"], "name": L[l_].get("name")})
+                lmap[l_] = len(L) - 1
+
+            def relocal(x):
+                if isinstance(x, dict):
+                    if "l" in x and "p" in x and isinstance(x["l"], int) and isinstance(x["p"], list):
+                        return {"l": lmap.get(x["l"], x["l"]),
+                                "p": [({**e, "index": lmap.get(e["index"], e["index"])} if isinstance(e, dict) and "index" in e else e) for e in x["p"]]}
+                    return {k_: relocal(v_) for k_, v_ in x.items()}
+                if isinstance(x, list):
+                    return [relocal(v_) for v_ in x]
+                return x
+            for b_ in order:
+                nbk = {"cleanup": B[b_]["cleanup"], "stmts": relocal(copy.deepcopy(B[b_]["stmts"])), "term": relocal(retarget(B[b_]["term"], remap))}
+                if "file" in B[b_]:
+                    nbk["file"] = B[b_]["file"]
+                B.append(nbk)
+            # first copy (the original blocks): driven by a, exhaustion falls into the second loop's header
+            def redrive(blocks_, new_it):
+                for b3 in blocks_:
+                    for st in B[b3]["stmts"]:
+                        if st["k"] == "assign" and "ref" in st.get("rv", {}) and not st["rv"]["ref"]["p"] and root(st["rv"]["ref"]["l"]) == it \
+                                and len(sdef.get(st["rv"]["ref"]["l"], [])) == 1 and "ref" not in sdef[st["rv"]["ref"]["l"]][0]:
+                            st["rv"]["ref"]["l"] = new_it
+            redrive(order, itA)
+            redrive([remap[b_] for b_ in order], itB)
+            for b_ in order:
+                B[b_]["term"] = retarget(B[b_]["term"], {X: remap[h]})
+            n += 1
+            break       # block indices of this body changed: one chain per body and pass
+    return n
+
+
 def desugar_extend(raws, facts):
     """`v.extend(iter.map(f))` / `v.extend(iter)` on a Vec is rewritten (in the view) into the loop it stands for:
 
@@ -494,6 +654,7 @@ def desugar_extend(raws, facts):
                         it_op, clo_op = mt["args"][0], mt["args"][1]
             # `iter.map(f).for_each(g)` is `for x in iter { g(f(x)) }` (map is lazy: f runs once per element, right before g)
             map_fn = None
+            map_clo = None
             if is_for_each and p is not None and not p["p"]:
                 ds = [d for d in body.defs.get(p["l"], []) if d[0] in ("stmt", "call")]
                 if len(ds) == 1 and ds[0][0] == "call":
@@ -504,6 +665,18 @@ def desugar_extend(raws, facts):
                         if fi_ is not None and cur.resolve_local(fi_) is not None and cur.resolve_local(fi_).arg_count == 1:
                             map_fn = mt["args"][1]
                             it_op = mt["args"][0]
+                        elif fi_ is None:
+                            # `.map(|x| ..)` with a closure built here: same peeling, the closure's body inlined
+                            mos_ = mir.origins(body, mt["args"][1])
+                            if len(mos_) == 1:
+                                mo_ = next(iter(mos_))
+                                if mo_[0] == "agg" and len(mo_) == 3:
+                                    mag_ = raw["blocks"][mo_[1]]["stmts"][mo_[2]]["rv"].get("agg")
+                                    if mag_ and mag_.get("kind") == "closure" and mag_.get("closure") in raws and raws[mag_["closure"]]["arg_count"] == 2 \
+                                            and len(raws[mag_["closure"]]["blocks"]) < 40 and mir.op_place(mt["args"][1]) is not None:
+                                        map_clo = (raws[mag_["closure"]], mir.op_place(mt["args"][1]))
+                                        map_fn = True
+                                        it_op = mt["args"][0]
             clo_raw = None
             if clo_op is not None:
                 os_ = mir.origins(body, clo_op)
@@ -551,9 +724,17 @@ def desugar_extend(raws, facts):
             elif map_fn is not None:
                 # P: m = f(x) -> P2 (appended behind U): g(&mut clo, m)
                 l_m = new_local("desugared::Mapped")
-                B.append({"cleanup": False, "stmts": pstm,
-                          "term": {"k": "call", "func": copy.deepcopy(map_fn), "args": [{"move": {"l": l_x, "p": []}}],
-                                   "dest": {"l": l_m, "p": []}, "t": base + 5, "unwind": None, "line": line, "exp": None}})
+                if map_clo is not None:
+                    l_mref = new_local("&mut closure")
+                    mcp = map_clo[1]
+                    pstm.append({"k": "assign", "place": {"l": l_mref, "p": []}, "rv": {"ref": {"l": mcp["l"], "p": list(mcp["p"])}, "mut": True}, "line": line, "exp": None, "inl": True})
+                    B.append({"cleanup": False, "stmts": pstm,
+                              "term": {"k": "call", "func": fnref(map_clo[0]["path"]), "args": [{"move": {"l": l_mref, "p": []}}, {"move": {"l": l_x, "p": []}}],
+                                       "dest": {"l": l_m, "p": []}, "t": base + 5, "unwind": None, "line": line, "exp": None}})
+                else:
+                    B.append({"cleanup": False, "stmts": pstm,
+                              "term": {"k": "call", "func": copy.deepcopy(map_fn), "args": [{"move": {"l": l_x, "p": []}}],
+                                       "dest": {"l": l_m, "p": []}, "t": base + 5, "unwind": None, "line": line, "exp": None}})
             else:
                 cp = mir.op_place(clo_op)
                 pstm.append({"k": "assign", "place": {"l": l_cref, "p": []}, "rv": {"ref": {"l": cp["l"], "p": list(cp["p"])}, "mut": True}, "line": line, "exp": None, "inl": True})
@@ -574,6 +755,8 @@ def desugar_extend(raws, facts):
                           "term": {"k": "call", "func": fnref(clo_raw["path"]), "args": [{"move": {"l": l_cref, "p": []}}, {"move": {"l": l_m, "p": []}}],
                                    "dest": {"l": l_y, "p": []}, "t": H, "unwind": None, "line": line, "exp": None}})
                 inline_call(raw, base + 5, copy.deepcopy(clo_raw))
+                if map_clo is not None:
+                    inline_call(raw, P, copy.deepcopy(map_clo[0]))
             elif clo_raw is not None:
                 inline_call(raw, P, copy.deepcopy(clo_raw))
             n += 1
@@ -1850,12 +2033,16 @@ def inlined_facts(facts, vocab=None):
             if r2 is not raw:
                 raws[path] = r2
                 info["arm_split"].append(mir.strip_generics(path))
+    try:
+        info["split_chains"] = split_chain_loops(raws, facts)
+    except Exception as e:
+        info["split_chains_error"] = repr(e)
     info["desugared_extend"] = desugar_extend(raws, facts)
     try:
         info["desugared_extend"] += desugar_combinators(raws, facts)
     except Exception as e:       # the view stays without this normalisation
         info["desugar_combinators_error"] = repr(e)
-    if not helpers and not info["arm_split"] and not info["desugared_extend"]:
+    if not helpers and not info["arm_split"] and not info["desugared_extend"] and not info.get("split_chains"):
         sigs = load_sigs()
         info["unbundled"] = (unbundle_params(raws, facts, sigs) + permute_params(raws, facts, sigs)) if sigs else []
         if not info["unbundled"]:
